@@ -107,6 +107,14 @@ void harness(void) {
     arm(); rc = cif_value_init(v, CIF_CHAR_KIND); disarm(); EXPECT(rc);
     if (rc != CIF_OK) { rc = cif_value_init(v, CIF_CHAR_KIND); V_ASSERT(rc == CIF_OK, "retry succeeds"); }
     V_ASSERT(v->kind == CIF_CHAR_KIND, "re-initialised"); cif_value_free(v);
+#elif TARGET == 15         /* cif_value_clone of a NUMBER with a standard uncertainty (concrete text "1.5(2)") into an existing value */
+    { UChar *t = (UChar *) malloc(7 * sizeof(UChar)); V_MALLOC_OK(t); t[0] = '1'; t[1] = '.'; t[2] = '5'; t[3] = '('; t[4] = '2'; t[5] = ')'; t[6] = 0; v = build(1);
+      rc = cif_value_parse_numb(v, t); V_ASSUME(rc == CIF_OK); w = build(INTO_SHAPE);
+      arm(); rc = cif_value_clone(v, &w); disarm(); EXPECT(rc);
+      V_ASSERT(w != NULL, "the existing target object is still the caller's");
+      if (rc != CIF_OK) { rc = cif_value_clone(v, &w); V_ASSERT(rc == CIF_OK, "retry succeeds (the failed call left the target a valid value)"); }
+      V_ASSERT(w->kind == CIF_NUMB_KIND && w->as_numb.digits != v->as_numb.digits && w->as_numb.digits[0] == '1' && w->as_numb.su_digits != NULL && w->as_numb.su_digits[0] == '2' && w->as_numb.scale == 1, "clone equals the number");
+      cif_value_free(v); cif_value_free(w); }
 #elif TARGET == 14         /* cif_u_strdup */
     { UChar *c; arm(); c = cif_u_strdup(N1); disarm(); if (vf_failed) { V_ASSERT(c == NULL, "NULL on allocation failure"); V_COVER_OPT("failure injected"); } else V_ASSERT(c != NULL && c != N1 && c[1] == 'a', "copy"); free(c); }
 #endif
